@@ -86,22 +86,26 @@ func VH_C08_usable() {
 	vCover("barrier-passed")
 }
 
-// pool lemma: NewWorkerPool(k) starts exactly max(k,1) workers, each running one task at a time
-func VH_C08_workers() {
-	vUnwind(20)
-	maxk := vParam("k", 6)
+// pool sizes <= 0 mean one worker: such a pool runs its tasks, one at a time
+func VH_C08_poolNonPositive() {
+	vUnwind(10)
 	k := vNondet[int]("k")
-	vAssume(-2 <= k && k <= maxk)
+	vAssume(-3 <= k && k <= 0)
 	k = vConcrete(k)
+	inflight, ran := 0, 0
 	p := NewWorkerPool(k)
-	want := k
-	if want <= 0 {
-		want = 1
-		vCover("k<=0")
+	for i := 0; i < 2; i++ {
+		p.Submit(func() {
+			vMonC(1, func() {
+				inflight++
+				vAssert(inflight <= 1, "pool-of-size<=0-runs-one-task-at-a-time")
+			})
+			vMonC(2, func() { inflight--; ran++ })
+		})
 	}
-	vAssert(p.workers == want, "pool-records-max(k,1)-workers")
-	vAssert(vThreadsCreated() == want, "exactly-max(k,1)-worker-goroutines-started")
-	vCover("workers")
+	p.Wait()
+	vMon(func() { vAssert(ran == 2, "pool-of-size<=0-still-runs-its-tasks") })
+	vCover("k<=0")
 }
 
 // the same bound directly on the pool
@@ -122,4 +126,32 @@ func VH_C08_poolBound() {
 	}
 	p.Wait()
 	vCover("pool-bound")
+}
+
+// the pool's limit is usable after the pool has been idle: c mutually dependent tasks submitted
+// back to back to a pool that has already run (and finished) a task do run simultaneously
+func VH_C08_poolUsable() {
+	vUnwind(10)
+	c := vParam("c", 2)
+	inflight, reached := 0, false
+	p := NewWorkerPool(c)
+	if vNondet[bool]("warmUp") {
+		p.Submit(func() {})
+		p.Wait()
+		vCover("warmed-up")
+	}
+	for i := 0; i < c; i++ {
+		p.Submit(func() {
+			vMonC(1, func() {
+				inflight++
+				if inflight >= c {
+					reached = true
+				}
+			})
+			vBlockUntil(func() bool { return reached })
+			vMonC(2, func() { inflight-- })
+		})
+	}
+	p.Wait()
+	vCover("pool-barrier-passed")
 }
